@@ -4,10 +4,21 @@ TITLE = "REST/web APIs and the Go client report and change exactly the store's s
 LEVEL_TEXT = ("proof (Coq) about a model of router + escaping + v1/web-UI handlers + StoreManager glue + the Go client over the "
               "abstract store of C07, tied to the code by a correspondence check on a real net/http server, both real stores and "
               "the real client; partial for mailbox names containing '/' or equal to '.'/'..' (open finding K-C14-client-slash)")
-LEVEL_NOTE = ("gorilla/mux matching, net/http request parsing and redirect following, net/url escaping and path.Clean are modelled "
+LEVEL_NOTE = ("modelled handlers (every handler of pkg/rest/routes.go and pkg/webui/routes.go that touches the store; the monitor/websocket "
+              "endpoints, greeting and status are not): /api/v1 MailboxListV1, MailboxPurgeV1, MailboxShowV1, MailboxMarkSeenV1, MailboxDeleteV1, "
+              "MailboxSourceV1; /serve MailboxMessage, MailboxHTML, MailboxSource, MailboxViewAttach; StoreManager.GetMessage/SourceReader/"
+              "MarkSeen/RemoveMessage/PurgeMessages/GetMetadata; every method of pkg/rest/client. "
+              "Modelled JSON fields (Model/Rest.v jheader/jmessage/juimessage, compared one by one): header = mailbox, id, from, to, subject, date, "
+              "posix-millis, size, seen (JSONMessageHeaderV1 list entries, JSONMessageV1, web-UI jsonMessage); v1 message additionally body.text, "
+              "body.html, header (From/To/Subject entries), attachments (filename, content-type, md5, download-link = view-link with host, resolved "
+              "mailbox, id as requested, index); web-UI message additionally text (= web.TextToHTML of the part), html (sanitised part, by tag), "
+              "header, attachments (id, filename, content-type), errors (count); plain answers: source bytes, html part, attachment content; "
+              "status class and Location of redirects. Not compared: other MIME header entries, Content-Type header values of answers beyond the kind. "
+              "gorilla/mux matching, net/http request parsing and redirect following, net/url escaping and path.Clean are modelled "
               "(from their source) and validated by the correspondence run, not verified; the mailbox naming function "
               "(MailboxForAddress, property C04) is an arbitrary function in the theorems and is observed from the implementation "
-              "in the correspondence run; enmime body/attachment extraction is trusted (message contents are generated per tag)")
+              "in the correspondence run; enmime body/attachment extraction is trusted (message contents are generated per tag and each field is "
+              "read back separately)")
 TECHNIQUE = "machine-checked proof in Coq + model/code correspondence check"
 DESIGN_REF = "DESIGN.md §4 C14"
 RULE = ("hist: a random history (4-33 ops) of deliveries, raw HTTP requests (7 path templates, names escaped in 4 valid ways, "
